@@ -17,6 +17,9 @@ BASE := -std=gnu11 -g -fno-omit-frame-pointer -fopenmp -w
 ifeq ($(V),asan)
   VFLAGS := -O2 -fsanitize=address
   LFLAGS := -fsanitize=address
+else ifeq ($(V),fast2)
+  VFLAGS := -O2
+  LFLAGS := -rdynamic
 else ifeq ($(V),fast)
   VFLAGS := -O2
   LFLAGS := -rdynamic
